@@ -143,6 +143,10 @@ def mutations(kind, alg, custom, is7797, rng, tier):
     for n in ("unknown", "x-custom", "exp", "b64x"):
         for tn, v in tv[:8]:
             yield f"unknown:{n}={tn}", {n: copy.deepcopy(v)}, []
+    # names that other registries in this process know, this one does not
+    for n, t in ELSEWHERE.items():
+        if n not in custom:
+            yield f"unknown:{n}=registered-elsewhere", {n: copy.deepcopy(VALID_VALUE[t])}, []
     for n, (t, req) in custom.items():
         for tn, v in tv:
             yield f"custom:{n}={tn}", {n: copy.deepcopy(v)}, []
@@ -198,9 +202,22 @@ def configs(kind):
     return out
 
 
+ELSEWHERE = {"elsewhere": STR, "elsenum": INT, "elsereq": INT}
+
+
+def other_callers_registries():
+    """somebody else in the same process builds registries with header parameters of their own - that is nobody else's business"""
+    j = J.load()
+    from joserfc.registry import HeaderParameter
+    hr = {"elsewhere": HeaderParameter("e", STR, False), "elsenum": HeaderParameter("e", INT, False), "elsereq": HeaderParameter("e", INT, True)}
+    return [j.jws.JWSRegistry(header_registry=dict(hr)), j.rfc7797.JWSRegistry(header_registry=dict(hr), strict_check_header=False),
+            j.jwe.JWERegistry(header_registry=dict(hr))]
+
+
 def make_registry(kind, cfg: Cfg, allow):
     j = J.load()
     from joserfc.registry import HeaderParameter
+    other_callers_registries()
     hr = {n: HeaderParameter(n, t, req) for n, (t, req) in cfg.custom.items()} or None
     if cfg.name == "default":
         # the library's own defaults: nothing but the allow-list is passed
